@@ -111,6 +111,10 @@ def _is_const_expr(e):
         return all(_is_const_expr(x) for x in e.elts)
     if isinstance(e, ast.Call) and isinstance(e.func, ast.Name) and e.func.id == "frozenset" and len(e.args) <= 1 and not e.keywords:
         return all(_is_const_expr(x) for x in e.args)
+    if isinstance(e, ast.Set):
+        return all(_is_const_expr(x) for x in e.elts)
+    if isinstance(e, ast.Dict):
+        return all(k is not None and _is_const_expr(k) for k in e.keys) and all(_is_const_expr(v) for v in e.values)
     return False
 
 
@@ -195,6 +199,48 @@ class _ReCanon(ast.NodeTransformer):
                     new.keywords.append(ast.keyword(arg="flags", value=flags))
             return ast.fix_missing_locations(ast.copy_location(new, node))
         return node
+
+
+class _ClassConstInliner(ast.NodeTransformer):
+    def __init__(self, clsname, consts):
+        self.clsname, self.consts = clsname, consts
+
+    def visit_Attribute(self, node):
+        self.generic_visit(node)
+        if isinstance(node.ctx, ast.Load) and node.attr in self.consts and isinstance(node.value, ast.Name) and node.value.id in ("self", "cls", self.clsname):
+            return ast.copy_location(copy.deepcopy(self.consts[node.attr]), node)
+        return node
+
+
+def inline_class_constants(tree):
+    """private class attributes bound once to a constant are substituted where the class's methods read them"""
+    stored = set()
+    for n in ast.walk(tree):
+        if isinstance(n, ast.Attribute) and isinstance(n.ctx, (ast.Store, ast.Del)):
+            stored.add(n.attr)
+        if isinstance(n, ast.Call) and isinstance(n.func, ast.Name) and n.func.id == "setattr":
+            return tree  # attributes set by name: leave everything alone
+    for c in ast.walk(tree):
+        if not isinstance(c, ast.ClassDef):
+            continue
+        counts = {}
+        for s in c.body:
+            if isinstance(s, ast.Assign):
+                for t in s.targets:
+                    if isinstance(t, ast.Name):
+                        counts[t.id] = counts.get(t.id, 0) + 1
+        consts = {}
+        for s in c.body:
+            if isinstance(s, ast.Assign) and len(s.targets) == 1 and isinstance(s.targets[0], ast.Name):
+                nm = s.targets[0].id
+                if counts.get(nm) == 1 and nm.startswith("_") and not nm.startswith("__") and nm not in stored and _is_const_expr(s.value) and not isinstance(s.value, ast.Constant):
+                    consts[nm] = s.value
+        if consts:
+            tr = _ClassConstInliner(c.name, consts)
+            for s in c.body:
+                if isinstance(s, (ast.FunctionDef, ast.AsyncFunctionDef)):
+                    tr.visit(s)
+    return tree
 
 
 def inline_module_constants(tree):
@@ -1003,6 +1049,7 @@ def normalize_package(trees, known=None, passes=None):
             percent_format(t)
         if on(3):
             inline_module_constants(t)
+            inline_class_constants(t)
         if on(4):
             with_lock(t)
     if on(6):
